@@ -370,6 +370,56 @@ func TestVerifC05B(t *testing.T) {
 					ok = ok && activate(d)
 				}
 			}
+			if pi == 3 && !c.contact && len(devs) == 3 && len(c.devices) == 3 {
+				// directed plan "a damaged announcement in the history": A has the group open but not activated. B's log gets
+				// an announcement addressed to A's member whose payload is damaged (validly signed by its sender device X, the
+				// sealed chain key is garbage); AFTER it, C (active) writes a genuine one. Both are in A's log, and have been
+				// announced by A's store, when A activates: the damaged one must not hide the one that follows it.
+				order = nil
+				a, b, cdev := devs[0], devs[1], devs[2]
+				ok = activate(b)
+				if ok {
+					if err := vDeliver(ctx, cdev.gc.MetadataStore(), vHeads(b.gc.MetadataStore())); err != nil {
+						rep.Inconclusivef("%s: deliver: %v", tag, err)
+						return
+					}
+					ok = activate(cdev)
+				}
+				if ok {
+					// (the damaged announcement is made in the name of a device X that is no party to the completeness oracle: an
+					// announcement of B itself would mark A as served in B's index and B would never announce itself properly)
+					xmd, err := w.newReplica("X", nil).ss.GetOwnMemberDeviceForGroup(g)
+					if err != nil {
+						rep.Inconclusivef("%s: %v", tag, err)
+						return
+					}
+					garbage := []byte("verif: not a sealed chain key, but long enough to look like one ................")
+					if _, err := MetadataStoreSendSecret(ctx, b.gc.MetadataStore(), g, xmd, a.gc.MemberPubKey(), garbage); err != nil {
+						rep.Inconclusivef("%s: damaged announcement: %v", tag, err)
+						return
+					}
+					if err := vDeliver(ctx, cdev.gc.MetadataStore(), vHeads(b.gc.MetadataStore())); err != nil {
+						rep.Inconclusivef("%s: deliver: %v", tag, err)
+						return
+					}
+					if _, err := cdev.gc.MetadataStore().SendSecret(ctx, a.gc.MemberPubKey()); err != nil {
+						rep.Inconclusivef("%s: SendSecret: %v", tag, err)
+						return
+					}
+					trace = append(trace, "write(on "+b.name+": DAMAGED announcement of an outside device for "+a.name+"'s member)", "write("+cdev.name+": genuine announcement for "+a.name+"'s member, causally after it)")
+					if err := c05bSettle(devs); err != nil {
+						rep.Inconclusivef("%s: %v", tag, err)
+						return
+					}
+					if err := c05bDeliverEmitted(ctx, a, vHeads(cdev.gc.MetadataStore())); err != nil {
+						rep.Inconclusivef("%s: deliver: %v", tag, err)
+						return
+					}
+					trace = append(trace, fmt.Sprintf("sync(%s<-%s) while %s is open but not activated", a.name, cdev.name, a.name))
+					rep.Count("damaged_announcement_plans", 1)
+					ok = activate(a)
+				}
+			}
 			// interleave activations with random deliveries among the active devices
 			for _, di := range order {
 				if !activate(devs[di]) {
